@@ -18,6 +18,10 @@ def main():
         common.setup_numba_cache()
         rc, out, dt = common.run([sys.executable, os.path.join(HERE, "warm.py")], timeout=3000)
         print("numba warm-up", rc, round(dt, 1), "s", out[-300:] if rc else "")
+        # the translation-validation check compiles every kernel for integer / strided / F-ordered signatures (and the integer-first
+        # specialisations): one run here puts them into the content-keyed cache, so that the registered quick commands start warm
+        rc, out, dt = common.run([sys.executable, os.path.join(HERE, "check.py"), "C19", "--tier", "quick"], timeout=3000)
+        print("signature warm-up (C19 quick)", rc, round(dt, 1), "s")
     print("setup done in", round(time.time() - t0, 1), "s")
     return 0
 if __name__ == "__main__": sys.exit(main())
